@@ -723,6 +723,11 @@ func (s *State) applyFunction(name string, fn object.Object, args []object.Objec
 	if !ok {
 		return s.NewError("not a function: " + fn.Type().String() + ":" + fn.Inspect())
 	}
+	if ep := s.env.Epoch(); ep != s.cacheEpoch {
+		// A top level function or constant was redefined or deleted since the cache was filled.
+		s.ResetCache()
+		s.cacheEpoch = ep
+	}
 	if v, output, ok := s.cache.Get(function.CacheKey, args); ok {
 		log.Debugf("Cache hit for %s %v -> %#v", function.CacheKey, args, v)
 		if len(output) > 0 {
